@@ -3,7 +3,7 @@
    empty).  A rejected open leaves the filesystem literally unchanged; its only recorded call is
    the idempotent CCreate of the empty LOCK file. *)
 From Cas Require Import History.
-From CasProofs Require Import StoreFS StoreInv StoreWrite StoreHist WorldRel SettingsGate.
+From CasProofs Require Import StoreFS StoreInv StoreWrite StoreHist WorldRel SettingsGate PreCreate.
 
 Theorem C19_rejected_before_anything_is_modified :
   forall (H : bytes -> bytes) (cfg : config) (s : fs) (w : world) (f : file),
@@ -61,4 +61,52 @@ Theorem C19_stored_choice_wins :
 Proof. exact C19_same_n_opens_settings. Qed.
 Print Assumptions C19_stored_choice_wins.
 
+
+(* Pre-creation of the 256 x 256 directory tree is unobservable through the API: from a fresh
+   directory, the same history on a pre-creating configuration and on a lazily-creating one
+   (anything else about the configurations may differ except the key type) produces the same
+   output for every operation - the outputs of the ordered-map specification - and the same final
+   key map, with both blob directories clean.  (The two OutOpened payloads are not compared: they
+   carry the scan statistics, which depend on other configuration fields.) *)
+Theorem C19_precreation_is_unobservable :
+  forall H : bytes -> bytes,
+    (forall b : bytes, length (H b) = 32%nat) ->
+    (forall b : bytes, Forall (fun x : N => x < 256) (H b)) ->
+  forall (cfg1 cfg2 : config) (ops : list op),
+    c_kt cfg1 = c_kt cfg2 -> c_pre cfg1 = true -> c_pre cfg2 = false ->
+    0 < c_n cfg1 -> 0 < c_n cfg2 ->
+    Forall (api_op cfg1) ops -> NoCollide H (hist_contents ops) ->
+    exists (os1 os2 : option ostats) (hd1 hd2 : handle) (w1 w2 : world),
+      run_ops H None (OpOpen cfg1 false :: ops) (init_world empty_fs None)
+        = (OutOpened os1 :: spec_outs H cfg1 [] ops, Some hd1, w1) /\
+      run_ops H None (OpOpen cfg2 false :: ops) (init_world empty_fs None)
+        = (OutOpened os2 :: spec_outs H cfg1 [] ops, Some hd2, w2) /\
+      wfault w1 = None /\ wfault w2 = None /\
+      mpre (h_mem hd1) = true /\ mpre (h_mem hd2) = false /\
+      km (idx (h_mem hd1)) = km (idx (h_mem hd2)) /\
+      (let sg := fold_left (spec_step (key_cmp (c_kt cfg1))) ops [] in
+       Clean H (wfs w1) sg /\ Clean H (wfs w2) sg /\ CasNamed H (wfs w1) /\ CasNamed H (wfs w2)).
+Proof. exact C19_precreate_unobservable. Qed.
+Print Assumptions C19_precreation_is_unobservable.
+
+(* ... and the stored choice survives a clean restart of a pre-created handle, together with the
+   whole index (InvP is the invariant of pre-created handles; it coincides with Inv otherwise). *)
+Theorem C19_precreated_handle_restarts :
+  forall H : bytes -> bytes,
+    (forall b : bytes, length (H b) = 32%nat) ->
+    (forall b : bytes, Forall (fun x : N => x < 256) (H b)) ->
+  forall cfg : config, 0 < c_n cfg ->
+  forall (m : mem) (s : fs) (sg : smap bytes) (w : world),
+    InvP H cfg m s sg -> wfs w = s -> wfault w = None ->
+    exists (w1 : world) (m' : mem) (os : option ostats) (w' : world),
+      close m w = (tt, w1) /\ open_with_recover H cfg w1 = (Ok (m', os), w') /\
+      wfault w' = None /\ mpre m' = mpre m /\
+      km (idx m') = km (idx m) /\ rc (idx m') = rc (idx m) /\
+      ub (idx m') = ub (idx m) /\ tb (idx m') = tb (idx m) /\
+      nextv (mwal m') = nextv (mwal m) /\ InvP H cfg m' (wfs w') sg.
+Proof. exact restart_ok_P. Qed.
+Print Assumptions C19_precreated_handle_restarts.
+
 Example C19_nonvacuous := SettingsGate.gate_ex_theorem_instance.
+(* InvP is reachable with the flag set: the first open of a pre-creating configuration *)
+Example C19_InvP_nonvacuous := PreCreate.open_fresh_disk_pre_InvP.
